@@ -333,12 +333,22 @@ Definition join (a b : dtype) : option dtype :=
   | DBool, DBool => Some DBool
   end.
 
+Definition is_null (v : val) : bool := match v with VNull => true | _ => false end.
+Definition elem_ok (v : val) : bool := match elem_dtype v with Some _ => true | None => false end.
+
+(* numpy.array's dtype discovery.  Round 7: text next to numbers has no common dtype in the model
+   ([join] = None; NumPy would stringify), EXCEPT when a null follows later in the list: then the
+   array is an object array whatever else it holds (numpy.array([1, 'a', None]).dtype == object)
+   and every element is kept as the Python object it is. *)
 Fixpoint join_all (acc : dtype) (l : list val) : option dtype :=
   match l with
   | [] => Some acc
   | v :: r => match elem_dtype v with
               | None => None
-              | Some d => match join acc d with None => None | Some a => join_all a r end
+              | Some d => match join acc d with
+                          | None => if existsb is_null r && forallb elem_ok r then Some DObj else None
+                          | Some a => join_all a r
+                          end
               end
   end.
 
